@@ -923,6 +923,8 @@ func c07Immut(args []string) int {
 					s[k] = v
 				}
 				steps = append(steps, s)
+				// judge the next chain against what it is handed, not against what an earlier offender left behind
+				before = after
 			}
 			langs, err := p.OutputLanguages()
 			if err != nil {
